@@ -537,9 +537,13 @@ fn supervise(id: &str, tier: Tier, seed: u64, only_sub: Option<String>) -> i32 {
     if only_sub.is_none() {
         let mut s = serde_json::to_string_pretty(&ev).unwrap();
         s.push('\n');
-        if let Err(e) = std::fs::write(evdir.join(format!("{}.json", id)), s) {
+        if let Err(e) = std::fs::write(evdir.join(format!("{}.json", id)), &s) {
             infra.push(format!("cannot write evidence: {}", e));
         }
+        // a copy per tier, so that the evidence of the last thorough run survives later quick runs (and vice versa)
+        let tdir = evdir.join(tier.name());
+        let _ = std::fs::create_dir_all(&tdir);
+        let _ = std::fs::write(tdir.join(format!("{}.json", id)), &s);
     }
 
     println!(
